@@ -169,8 +169,8 @@ PROPS = {
                       'outstanding entry that the upper bound admits and leaves the rest; None exactly when nothing is left, forever. '
                       'Bound::{exceeded_by,is_empty,is_inclusive} and the ge/gt/le/lt builder methods are verified against lex order; each '
                       'sets exactly its own bound (so the last setting wins) and into_stream composes them.',
-        'level_note': 'Node accessors / FstRef::node are assumed contracts (decoder, unit decode); the hoisted position(|t| t.inp > b) '
-                      'expression is an assumed contract (Kani K-scan). That the listing is strictly ascending and agrees with get() is a '
+        'level_note': 'Node accessors / FstRef::node are assumed contracts (decoder, unit decode); the closure of position(|t| t.inp > b) is verified '
+                      'where it stands (under its context precondition: no transition carries b), the provided method Iterator::position over the crate\'s Transitions iterator is a std-level assumption stated for any predicate (Kani K-scan runs the real expression, every fan-out in the thorough tier). That the listing is strictly ascending and agrees with get() is a '
                       'spec-level consequence of wf_graph (listing lemmas). Partial output sums fit in u64: the precondition `fits`, proved of every built file in unit compose (thm_built_file_fits).',
         'explanation': '',
         'assumptions': [],
